@@ -124,7 +124,8 @@ class C06(DepsCheck):
     rule = ("blocks: every block of <= 3 (thorough: 4 over a reduced alphabet) abstract instructions over the 16-instruction "
             "alphabet of Deps_MC x every order reachable by admitted moves (TLC BFS, one history per order); after creation "
             "and after every move, for every adjacent pair satisfying the property's antecedent (Deps!Independent) the "
-            "reported bounds must admit the swap, and every such swap is also attempted directly; non-trivial = block "
+            "reported bounds must admit the swap, and every such swap is also attempted directly; every block with a store "
+            "also with its double-store twin (one instruction storing twice into the same space); non-trivial = block "
             "with an accepted order-changing move; distinct by (block, history)")
     assumptions = ["alphabet of 16 abstract instruction kinds over registers a,b,c,ip and memory spaces m,n"]
 
